@@ -23,6 +23,7 @@ type vCrashCfg struct {
 	InFlight string // "flush" | "flush2" | "compact" | "flushfault" (a flush whose Fault-th write fails: the crash hits its clean-up) | "close" / "closeactive" (the final flush of Close, document in a frozen / in the active memtable) | "reopen" (an Open of the closed directory)
 	Tmpl     string
 	Fault    int
+	Dir      int // > 0: the store lives in the directory vStoreDirNames[Dir-1] (its name is user input)
 }
 
 func (c vCrashCfg) String() string {
@@ -30,13 +31,29 @@ func (c vCrashCfg) String() string {
 	if c.Fault > 0 {
 		s += fmt.Sprintf(" fault=%d", c.Fault)
 	}
+	if c.Dir > 0 {
+		s += fmt.Sprintf(" dir=%d", c.Dir)
+	}
 	return s
 }
 
 func vParseCrashCfg(s string) vCrashCfg {
 	var c vCrashCfg
 	fmt.Sscanf(s, "crash rounds=%d compact=%t inflight=%s tmpl=%s fault=%d", &c.Rounds, &c.Compact, &c.InFlight, &c.Tmpl, &c.Fault)
+	if i := strings.Index(s, " dir="); i >= 0 {
+		fmt.Sscanf(s[i:], " dir=%d", &c.Dir)
+	}
 	return c
+}
+
+// inDir runs f with the store directory the configuration names.
+func (c vCrashCfg) inDir(f func()) {
+	if c.Dir > 0 {
+		old := vStoreDir
+		vStoreDir = vStoreDirNames[c.Dir-1]
+		defer func() { vStoreDir = old }()
+	}
+	f()
 }
 
 type vCrashHistory struct {
@@ -564,6 +581,13 @@ func vBoolInt(b bool) int {
 }
 
 func vCrashShard(cfg vCrashCfg) vShard {
+	sh := vCrashShard0(cfg)
+	run := sh.Run
+	sh.Run = func(c *vCtx) { cfg.inDir(func() { run(c) }) }
+	return sh
+}
+
+func vCrashShard0(cfg vCrashCfg) vShard {
 	return vShard{Name: strings.ReplaceAll(cfg.String(), " ", ","), Run: func(c *vCtx) {
 		h := vCrashRecord(cfg)
 		if h.dead != "" {
@@ -730,6 +754,11 @@ func init() {
 					sh = append(sh, vCrashShard(vCrashCfg{Rounds: r, InFlight: "reopen", Tmpl: tm}))
 				}
 			}
+			// the store directory's NAME is user input: one completed round + an in-flight flush
+			// in directories whose names hold pattern / escape / blank characters
+			for di := range vStoreDirNames {
+				sh = append(sh, vCrashShard(vCrashCfg{Rounds: 1, InFlight: "flush", Tmpl: "vtm", Dir: di + 1}))
+			}
 			for _, tm := range []string{"vtm", "v"} {
 				for r := 0; r <= maxR; r++ {
 					sh = append(sh, vCrashShard(vCrashCfg{Rounds: r, InFlight: "flush", Tmpl: tm}))
@@ -746,15 +775,17 @@ func init() {
 		},
 		Replay: func(c *vCtx, v *vViolation) bool {
 			cfg := vParseCrashCfg(v.Config)
-			h := vCrashRecord(cfg)
-			var ops, torn int
-			if len(v.History) > 0 {
-				fmt.Sscanf(v.History[0], "crash after %d of", &ops)
-				if i := strings.Index(v.History[0], ", "); i >= 0 {
-					fmt.Sscanf(v.History[0][i+2:], "%d bytes", &torn)
+			cfg.inDir(func() {
+				h := vCrashRecord(cfg)
+				var ops, torn int
+				if len(v.History) > 0 {
+					fmt.Sscanf(v.History[0], "crash after %d of", &ops)
+					if i := strings.Index(v.History[0], ", "); i >= 0 {
+						fmt.Sscanf(v.History[0][i+2:], "%d bytes", &torn)
+					}
 				}
-			}
-			vCrashCheck(c, cfg, h, vCrashPoint{ops: ops, torn: torn}, "C10")
+				vCrashCheck(c, cfg, h, vCrashPoint{ops: ops, torn: torn}, "C10")
+			})
 			_, ok := c.viol[v.Sig()]
 			return ok
 		},
